@@ -9,12 +9,17 @@ from harness.common import Sub
 
 PROPERTY = "C04"
 RULE = ("Hypothesis draws an exact spacetime (families W periodic/non-periodic,"
-        " F, KS, PP; amplitude masks give zero-shift/unit-lapse/diagonal "
-        "sub-classes), time, box, fd_order, boundary mode, Lambda, matter "
-        "form (Tdown4 / vacuum flag / none) and input form; aurel is run at "
+        " F, KS far from the hole or with the box inside the horizon (shift "
+        "larger than the lapse), PP, FLRW with scale factor O(1) or 2e-3; "
+        "amplitude masks give zero-shift/unit-lapse/diagonal sub-classes; a "
+        "W variant whose shift vanishes on the slice only), time, box, "
+        "fd_order, boundary mode, Lambda, Einstein's constant, matter "
+        "form (Tdown4 / vacuum flag / none), input form and the key "
+        "requested first; aurel is run at "
         "two resolutions and every output key (per component block) must "
-        "converge to the exact pointwise 4D value at order >= p-1.5 or reach "
-        "the round-off floor. Non-trivial = >= 2 non-zero shift components, "
+        "converge to the exact pointwise 4D value at order >= p-max(1.5, "
+        "0.3p) or reach the round-off floor; a failure on the pair (h, h/2) "
+        "is re-examined on (h/2, h/4) and reported only if it persists. Non-trivial = >= 2 non-zero shift components, "
         "non-unit time-dependent lapse, non-diagonal gamma and K.")
 ASSUMPTIONS = [
     "convergent regime: k*h <= ~0.6 at the coarse level, amplitudes <= 0.3",
